@@ -40,7 +40,8 @@ ExpectedBytes(h, j, p, V) ==
    TLCEval([i \in 1..Len(p) |-> ByteVal(p[i], h, V, AddrOf(h[j].b, h[j].off + i - 1, V))])
 
 \* ---- projected pool ---------------------------------------------------------
-CellTyped(c) == /\ c.w >= 8 /\ c.w % 8 = 0 /\ WellTyped(c.a) /\ WellTyped(c.v) /\ c.a.k # "aff" /\ c.v.k # "aff"
+\* what the machine holds is judged by its VALUE (the property): typing without the width-agreement rules (IR!Loose) suffices for IR!Eval
+CellTyped(c) == /\ c.w >= 8 /\ c.w % 8 = 0 /\ Loose(c.a) /\ Loose(c.v) /\ c.a.k # "aff" /\ c.v.k # "aff"
                 /\ Width(c.a) = AddrW
 CellAddrs(c, V) == LET as == ByteAddrs(Norm(Eval(c.a, V), AddrW), c.w \div 8) IN {as[j] : j \in 1..Len(as)}
 \* signed distance caddr - addr when it is small, 1000 otherwise
@@ -180,14 +181,14 @@ PVerdict(rec) ==
          lastpaths |-> IF rec.part = 1 /\ \A t \in InputTrees(rec) : WellTyped(t)
                        THEN LastPaths(rec, rec.envs[1], InitState(rec.pool0, rec.envs[1])) ELSE {}]>>
    ELSE IF \E t \in InputTrees(rec) : ~WellTyped(t) THEN <<[clause |-> "input.illtyped_lifted_aff"]>>
-   ELSE LET unb == (UNION {IF WellTyped(t) THEN Ids(t) ELSE {} : t \in InputTrees(rec) \cup OutputTrees(rec)})
+   ELSE LET unb == (UNION {IF Loose(t) THEN Ids(t) ELSE {} : t \in InputTrees(rec) \cup OutputTrees(rec)})
                      \ ((DOMAIN rec.envs[1].id) \cup {rec.pool0[i].n : i \in 1..Len(rec.pool0)}) IN
    IF unb # {} THEN <<[clause |-> "input.unbound", names |-> unb]>>
    ELSE LET allrb == 1..Len(rec.rbs)
             norb == {i \in allrb : rec.rbs[i].r.k = "none"}            \* the read-back raised or did not answer
-            illrb == {i \in allrb \ norb : rec.rbs[i].r.k = "aff" \/ rec.rbs[i].a.k = "aff" \/ ~WellTyped(rec.rbs[i].r) \/ ~WellTyped(rec.rbs[i].a)}
+            illrb == {i \in allrb \ norb : rec.rbs[i].r.k = "aff" \/ rec.rbs[i].a.k = "aff" \/ ~Loose(rec.rbs[i].r) \/ ~Loose(rec.rbs[i].a)}
             widrb == {i \in allrb \ (illrb \cup norb) : Width(rec.rbs[i].r) # rec.rbs[i].w}
-            illreg == {i \in 1..Len(rec.regs) : rec.regs[i].e.k = "aff" \/ ~WellTyped(rec.regs[i].e)}
+            illreg == {i \in 1..Len(rec.regs) : rec.regs[i].e.k = "aff" \/ ~Loose(rec.regs[i].e)}
             illcell == {i \in 1..Len(rec.cells) : ~CellTyped(rec.cells[i])}
             widcell == {i \in (1..Len(rec.cells)) \ illcell : Width(rec.cells[i].v) # rec.cells[i].w}
             lp == LastPaths(rec, rec.envs[1], InitState(rec.pool0, rec.envs[1]))
